@@ -44,6 +44,20 @@ def _validated_first(c, tr, const):
         and all(index_of(tr, val[0]) < i for i in others)
 
 
+def legacy_progress_clause(l1, evs, g0):
+    """C09 for the legacy callback: every chunk read from the body is reported, with its length, when a callback was given"""
+    from pyvc.values import to_int_term
+    cbv = l1.st.env.get('callback')
+    cbs = [e for e in evs if e.kind == 'ext' and e.name == 'legacy_cb.()']
+    keys = [k for k in l1.st.ghost if isinstance(k, tuple) and k[0] == 'body']
+    g1 = l1.st.ghost[keys[-1]]
+    n = g1['pos'] - g0['pos']
+    okc = len(cbs) == 1 and len(cbs[0].args) == 1
+    given = z3.Not(cbv.is_none) if isinstance(cbv, Opt) else B(cbv is not None)
+    return {'chunk_length_reported_to_the_callback_iff_one_was_given': (z3.If(
+        given, z3.And(B(bool(okc)), (to_int_term(cbs[0].args[0]) == n) if okc else B(False)), B(len(cbs) == 0)), ['C09'])}
+
+
 def register(R):
     R.add_fields(LCFG, multipart_threshold=Int, max_concurrency=Int, multipart_chunksize=Int, num_download_attempts=Int, max_io_queue=Int,
                  valid=lambda v, ref: [v.f(ref, k) > 0 for k in ('multipart_threshold', 'max_concurrency', 'multipart_chunksize', 'num_download_attempts', 'max_io_queue')])
@@ -153,7 +167,8 @@ def register(R):
         pu = [e for e in evs if e.kind == 'ext' and e.name == 'ioqueue.put']
         keys = [k for k in l0.st.ghost if isinstance(k, tuple) and k[0] == 'body']
         g0 = l0.st.ghost[keys[-1]]
-        out = {'one_write_queued_per_chunk': (B(len(pu) == 1), ['C02'])}
+        out = {'one_write_queued_per_chunk': (B(len(pu) == 1), ['C02']),
+               **legacy_progress_clause(l1, evs, g0)}
         if len(pu) == 1:
             off, d = pu[0].args[0]
             from pyvc.values import to_int_term
@@ -175,7 +190,7 @@ def register(R):
         }
 
     R.contract(
-        f'{MPD}._download_range', props=['C02', 'C14', 'C15', 'C03'],
+        f'{MPD}._download_range', props=['C02', 'C14', 'C15', 'C03', 'C09'],
         params=dict(bucket=ExtT('str'), key=ExtT('str'), filename=ExtT('str'), part_size=Int, num_parts=Int, callback=OptT(ExtT('legacy_cb')),
                     part_index=Int, extra_args=EXTRA),
         setup=range_setup, checks=range_checks,
@@ -379,6 +394,16 @@ def register_legacy_front(R):
                 and c.engine.same_const_list(val[0].extra['env']['allowed'], S3T, 'ALLOWED_UPLOAD_ARGS', c.new.st)), ['C15']),
             'exactly_one_mode': (B(len(mp) + len(po) == 1 and len(gs) == 1), ['C14', 'C01']),
         }
+        # C09: botocore reads the body while it prepares the request; progress reporting is switched off first and on last
+        # around 'request-created' (legacy handlers disable_/enable_upload_callbacks), registered before any request
+        from pyvc.values import FuncRef
+        rf = [e for e in tr if e.kind == 'ext' and e.name in ('client_events.register_first', 'event_emitter.register_first')]
+        rl = [e for e in tr if e.kind == 'ext' and e.name in ('client_events.register_last', 'event_emitter.register_last')]
+        okh = len(rf) == 1 and len(rl) == 1 and rf[0].args[0] == 'request-created.s3' and rl[0].args[0] == 'request-created.s3' \
+            and isinstance(rf[0].args[1], FuncRef) and rf[0].args[1].finfo.name == 'disable_upload_callbacks' \
+            and isinstance(rl[0].args[1], FuncRef) and rl[0].args[1].finfo.name == 'enable_upload_callbacks' \
+            and max(index_of(tr, rf[0]), index_of(tr, rl[0])) < first_req
+        out['upload_progress_reporting_is_bracketed_around_request_creation'] = (B(bool(okh)), ['C09'])
         if len(mp) + len(po) == 1 and len(gs) == 1:
             thr = c.old.f(c.oldf('_config'), 'multipart_threshold')
             out['multipart_iff_file_size_at_least_threshold'] = ((gs[0].result >= thr) if mp else (gs[0].result < thr), ['C14'])
@@ -388,7 +413,7 @@ def register_legacy_front(R):
                 and _same_args(c, env['extra_args'])), ['C15', 'C01'])
         return out
 
-    R.contract(f'{S3T}.upload_file', props=['C01', 'C14', 'C15'],
+    R.contract(f'{S3T}.upload_file', props=['C01', 'C09', 'C14', 'C15'],
                params=dict(filename=ExtT('str'), bucket=ExtT('str'), key=ExtT('str'), callback=Any, extra_args=OptT(EXTRA)),
                checks=uf_checks, raises={'Exception': only_propagates}, top_level=True)
 
@@ -419,7 +444,7 @@ def register_legacy_front(R):
         wr = [e for e in evs if e.kind == 'ext' and e.name == 'legacy_dest.write']
         keys = [k for k in l0.st.ghost if isinstance(k, tuple) and k[0] == 'body']
         g0, g1 = l0.st.ghost[keys[-1]], l1.st.ghost[keys[-1]]
-        out = {'one_write_per_chunk': (B(len(wr) == 1), ['C02'])}
+        out = {'one_write_per_chunk': (B(len(wr) == 1), ['C02']), **legacy_progress_clause(l1, evs, g0)}
         if len(wr) == 1:
             d = wr[0].args[0]
             out['chunk_written_is_the_next_body_bytes'] = (z3.And(to_int_term(d.lo) == g0['start'] + g0['pos'], to_int_term(d.hi) == g1['start'] + g1['pos']), ['C02'])
@@ -451,7 +476,7 @@ def register_legacy_front(R):
                                                                if g is not None else B(False)), ['C02', 'C03']),
         }
 
-    R.contract(f'{S3T}._do_get_object', props=['C02', 'C03', 'C06', 'C15'],
+    R.contract(f'{S3T}._do_get_object', props=['C02', 'C03', 'C06', 'C09', 'C15'],
                params=dict(bucket=ExtT('str'), key=ExtT('str'), filename=ExtT('str'), extra_args=EXTRA, callback=OptT(ExtT('legacy_cb'))),
                setup=dgo_setup, checks=dgo_checks, raises={'Exception': only_propagates},
                raise_when={'Exception': lambda c: None, 'socket.timeout': lambda c: None, 'OSError': lambda c: None},
